@@ -276,6 +276,14 @@ class World:
         from bert_e.bert_e import BertE
         from bert_e.settings import setup_settings
         self._activate_env()
+        if self.berte is not None:
+            # a fresh PROCESS: module-level state does not survive either
+            import importlib
+            from bert_e.git_host.cache import BUILD_STATUS_CACHE
+            import bert_e.workflow.gitwaterflow.commands as commands
+            for k in list(BUILD_STATUS_CACHE.keys()):
+                del BUILD_STATUS_CACHE[k]
+            importlib.reload(commands)
         settings = setup_settings(self.settings_path)
         settings['robot_password'] = self.password
         settings['jira_token'] = 'jira-token'
